@@ -201,16 +201,26 @@ enum Op { Add(usize), Interested(usize), NotInterested(usize), Stats(usize, u32,
 
 struct Fold { choked: bool, bad: Option<String> }
 
-pub fn run_c14_direct(ctx: &Ctx, rep: &mut Report) {
+pub fn run_c14_direct(ctx: &Ctx, rep: &mut Report) { run_histories(ctx, rep, false) }
+
+/// The same histories with a block request from every connected peer after every step (C09: the
+/// manager lets a request through only for a peer it has unchoked and a piece it owns).
+pub fn run_c09_direct(ctx: &Ctx, rep: &mut Report) { run_histories(ctx, rep, true) }
+
+fn run_histories(ctx: &Ctx, rep: &mut Report, probe_requests: bool) {
     let rt = rt();
     // a departing peer of a client that owns everything starts the extractor: keep its files here
     let _ = std::env::set_current_dir(&ctx.scratch);
     // a departing peer makes the manager re-announce: keep that away from the network
     script_tracker(Some(Box::new(|_| Err("tracker down (scripted)".to_string()))));
     let mut r = ctx.rng("c14");
-    rep.need("rotations_carried_out", 2000);
-    rep.need("snapshots_checked", 20_000);
-    let n_hist = ctx.count(32_000, 500_000);
+    if !probe_requests {
+        rep.need("rotations_carried_out", 2000);
+        rep.need("snapshots_checked", 20_000);
+    } else {
+        rep.need("request_decisions_checked", 20_000);
+    }
+    let n_hist = if probe_requests { ctx.count(6_000, 100_000) } else { ctx.count(32_000, 500_000) };
     for h in 0..n_hist {
         let maxpeers = match r.below(4) { 0 => r.range(0, 5) as usize, 1 => r.range(9, 14) as usize, _ => r.range(0, 40) as usize };
         let rounds = r.range(3, 8) as usize;
@@ -250,6 +260,7 @@ pub fn run_c14_direct(ctx: &Ctx, rep: &mut Report) {
             let mut alive: BTreeMap<usize, bool> = BTreeMap::new();
             let mut viol: Option<(String, String)> = None;
             let mut stats = (0u64, 0u64, 0u64); // snapshots, rotations carried out, max unchoked
+            let (mut probes, mut refused_unchoked) = (0u64, 0u64);
             for (step, op) in ops.iter().enumerate() {
                 let mut rotated = false;
                 match op {
@@ -298,6 +309,21 @@ pub fn run_c14_direct(ctx: &Ctx, rep: &mut Report) {
                 }
                 let snap = s.verif_snapshot();
                 stats.0 += 1;
+                if probe_requests {
+                    for p in &snap.peers {
+                        for piece in [0usize, 1] {
+                            let (tx, rx) = oneshot::channel();
+                            s.verif_handle(PeerCmd::RecvRequest { addr: p.addr.clone(), piece_index: piece, resp_ch: tx }).await.unwrap();
+                            let granted = matches!(rx.await, Ok(RequestCmd::LoadAndSendPiece { .. }));
+                            let owned = snap.statuses[piece] == Status::Have;
+                            probes += 1;
+                            if granted && (p.am_choked || !owned) {
+                                viol = viol.or(Some(("C09:request-granted-to-choked-peer-or-for-unowned-piece".into(), format!("after step {} {:?} the manager lets {} have piece {} although it has that peer {} and the piece is {:?}: {}", step, op, p.addr, piece, if p.am_choked { "choked" } else { "unchoked" }, snap.statuses[piece], snap.peers.iter().map(|q| format!("{}:{}{}{}", q.addr, if q.am_choked { "c" } else { "u" }, if q.interested { "I" } else { "-" }, if q.optimistic_unchoke { "o" } else { "" })).collect::<Vec<_>>().join(" ")))));
+                            }
+                            if !granted && !p.am_choked && owned { refused_unchoked += 1; }
+                        }
+                    }
+                }
                 let regular = snap.peers.iter().filter(|p| !p.am_choked && !p.optimistic_unchoke).count();
                 let optimistic = snap.peers.iter().filter(|p| !p.am_choked && p.optimistic_unchoke).count();
                 stats.2 = stats.2.max((regular + optimistic) as u64);
@@ -335,11 +361,12 @@ pub fn run_c14_direct(ctx: &Ctx, rep: &mut Report) {
                 }
                 if viol.is_some() { break; }
             }
-            (viol, stats)
+            (viol, stats, probes, refused_unchoked)
         }));
         match res {
             Err(p) => rep.violation(&format!("C14:panic:{}", panic_site(&p)), p, json!({"history": opsdesc})),
-            Ok((viol, stats)) => {
+            Ok((viol, stats, probes, refused_unchoked)) => {
+                if probe_requests { rep.count("request_decisions_checked", probes); rep.count("requests_refused_to_unchoked_peers_for_owned_pieces", refused_unchoked); }
                 rep.count("snapshots_checked", stats.0);
                 rep.count("rotations_carried_out", stats.1);
                 rep.max("unchoked_at_once", stats.2);
